@@ -64,6 +64,16 @@ def grammar_cases(rng: random.Random) -> List[Dict[str, Any]]:
     # literals in every notation the lexer's patterns accept (upper-case prefixes included): valid - and never the catch-all
     for good in ("'\\X41'", '"\\X41\\x42"', "'\\x7f'", '0X1f', '0B101', '"a\\tb\\0"', "'\\\\'", '"\\X00\\XfF"', "'\\''", '"\\""'):
         add('valid-literals', pre + f';{good}\n', [])
+    # a label in front of every kind of statement, on one line: at the top level, in a namespace and in a macro body
+    for k, stmt in enumerate((f'{lbl}k = 5', ';', f'wflip {lbl}, 1', f'pad 2', f'rep(2, i) {name}f i', f'{name}f 3', '5;', f';{lbl}')):
+        inner = f'{lbl}: {stmt}\n'
+        macro = f'def {name}f a {{\n  ;a\n}}\n'
+        if stmt.startswith(('pad',)):
+            add('valid-statement-forms', macro + pre + inner, [])
+            continue
+        add('valid-statement-forms', macro + pre + inner, [])
+        add('valid-statement-forms', macro + pre + f'ns n{k} {{\n  {inner}}}\n', [])
+        add('valid-statement-forms', macro + f'def {name}g @ {lbl} {{\n  {inner}}}\n' + pre + f'{name}g\n', [])
     # syntax
     for bad in (';;', 'def m {', '}', 'a b c :', 'wflip 1', 'wflip 1,', 'rep(3) m', 'rep(3, i)', 'ns {\n}', 'def a.b {\n}',
                 '1 < 2 < 3;', 'pad', '(1;', '1);', ';1 +', '; * 2', 'x = ', '= 5', 'def m a a {\n;\n}', f'{lbl}: {lbl}2: ;',
